@@ -96,6 +96,46 @@ def check(ctx):
     for flag, frag in pairs.items():
         ctx.check(frag in text, "C04.R2c", f"ComplexField.update_result:{flag}", ur.node.body[0],
                   f"ComplexField.update_result no longer omits on `{frag}`: the `{flag}` flag is tested against the wrong value or not at all", ur, ur.node, detail=frag)
+    # truth tables of the emission sites (form-independent)
+    from ..pathcond import complements, parents_of, path_condition
+    atoms_e = complements({
+        "self.typed_dict": "typed_dict", "self.required": "required", "self.name in obj": "in_obj", "self.exclude_unset": "exclude_unset",
+        "self.name in getattr(obj, FIELDS_SET_ATTR)": "in_fields_set", "self.skippable": "skippable", "self.skip_if is not None": "skip_if_set", "self.skip_if": "skip_if_set",
+        "self.skip_if(value)": "skip_if_true", "self.undefined": "undefined", "value is Undefined": "is_undef", "self.skip_none": "skip_none", "value is None": "is_none",
+        "self.skip_default": "skip_default", "value == self.default_value": "eq_default", "self.default_value == value": "eq_default", "self.alias is not None": "alias_set"})
+    names_e = ["typed_dict", "required", "in_obj", "exclude_unset", "in_fields_set", "skippable", "skip_if_set", "skip_if_true", "undefined", "is_undef", "skip_none", "is_none", "skip_default", "eq_default", "alias_set"]
+
+    def emission_sites(fn):
+        out = []
+        for n in ast.walk(fn):
+            if isinstance(n, ast.Assign) and isinstance(n.targets[0], ast.Subscript) and norm(n.targets[0].value) == "result":
+                out.append(n)
+            if isinstance(n, ast.Expr) and isinstance(n.value, ast.Call) and norm(n.value.func) == "result.update":
+                out.append(n)
+        return out
+
+    def table(fi_, want, dom, what):
+        sites = emission_sites(fi_.node)
+        pm_ = parents_of(fi_.node)
+        ev_ = BoolEval(atoms_e)
+        try:
+            fs = [ev_.compile(path_condition(fi_.node, s_, pm_)) for s_ in sites]
+            bad = next((v for v in valuations(names_e, dom) if any(bool(f(v)) for f in fs) != bool(want(v))), None)
+        except Unknown as err:
+            ctx.undecided("C04.R2c", f"{fi_.qualname}: {err}")
+            return
+        ctx.check(bool(sites) and bad is None, "C04.R2c", f"{fi_.qualname}:emission", sites[0] if sites else fi_.node.body[0],
+                  f"{what}: under [{show(bad) if bad else ''}] the field is " + ("emitted although it must be omitted" if bad and any(f(bad) for f in fs) else "omitted although it must be emitted"), fi_, sites[0] if sites else fi_.node,
+                  detail=f"{len(sites)} emission site(s); truth table over {len(names_e)} atoms")
+
+    flags_any = lambda v: v["skip_if_set"] or v["undefined"] or v["skip_none"] or v["skip_default"]
+    omit = lambda v: (v["skip_if_set"] and v["skip_if_true"]) or (v["undefined"] and v["is_undef"]) or (v["skip_none"] and v["is_none"]) or (v["skip_default"] and v["eq_default"])
+    present = lambda v: (v["required"] or v["in_obj"]) if v["typed_dict"] else (not v["exclude_unset"] or v["in_fields_set"])
+    table(ur, lambda v: present(v) and not omit(v), lambda v: v["skippable"] == bool(flags_any(v)) and not (v["is_undef"] and v["is_none"]),
+          "ComplexField emits a present field unless one of its set flags matches the value")
+    sf = model.cls(f"{SMETH}.SerializedField").methods["update_result"]
+    table(sf, lambda v: not (v["undefined"] and v["is_undef"]) and not (v["skip_none"] and v["is_none"]), lambda v: not (v["is_undef"] and v["is_none"]),
+          "SerializedField emits the method's result unless it is Undefined (undefined flag) or None (skip_none flag)")
     pi = cf.methods.get("__post_init__")
     ok = pi is not None and all(f"self.{f}" in norm(pi.node) for f in pairs)
     ctx.check(ok, "C04.R2c", "ComplexField.__post_init__", pi.node.body[0] if pi else None, "ComplexField.skippable is not the disjunction of the four flags: a set flag would be short-circuited", pi, pi.node if pi else None, detail="skippable = any flag")
@@ -137,6 +177,30 @@ def check(ctx):
                     child = p
                     p = parents.get(p)
                 ctx.check(guarded, "C04.R4", f"{c.name}.update_result:update", n, "result.update(...) outside the `alias is None` (aggregate) branch merges a value's keys into the parent", ur, n, detail="only under alias is None")
+
+    # attribute reads use the Python name; additional keys of mapping-like objects
+    for q in model.subclasses(base, strict=True):
+        c = model.classes[q]
+        ur = c.methods.get("update_result")
+        if ur is None:
+            continue
+        for n in ast.walk(ur.node):
+            if isinstance(n, ast.Call) and dotted(n.func) == "getattr" and len(n.args) >= 2 and norm(n.args[0]) == "obj" and norm(n.args[1]) != "FIELDS_SET_ATTR":
+                ctx.check(norm(n.args[1]) == "self.name", "C04.R4", f"{c.name}.update_result:getattr", n, f"`{norm(n)}` reads the attribute under `{norm(n.args[1])}`: objects are read by their Python field name, the alias is the output key", ur, n, detail="getattr(obj, self.name)")
+            if isinstance(n, ast.Subscript) and isinstance(n.ctx, ast.Load) and norm(n.value) == "obj":
+                ctx.check(norm(n.slice) == "self.name", "C04.R4", f"{c.name}.update_result:obj[]", n, f"`{norm(n)}`: TypedDict items are read by their declared key (self.name)", ur, n, detail="obj[self.name]")
+    oam = model.func(f"{SMETH}.ObjectAdditionalMethod.serialize")
+    pm_a = parents_of(oam.node)
+    ev_a = BoolEval(complements({"isinstance(key, str)": "is_str", "key in self.field_names": "declared", "key in result": "emitted"}))
+    st_a = [n for n in ast.walk(oam.node) if isinstance(n, ast.Assign) and isinstance(n.targets[0], ast.Subscript) and norm(n.targets[0].value) == "result"]
+    try:
+        fs = [ev_a.compile(path_condition(oam.node, n, pm_a)) for n in st_a]
+        bad = next((v for v in valuations(["is_str", "declared", "emitted"]) if any(bool(f(v)) for f in fs) != (v["is_str"] and not v["declared"] and not v["emitted"])), None)
+        ctx.check(bool(st_a) and bad is None, "C04.R4", f"{oam.qualname}:additional", st_a[0] if st_a else oam.node.body[0],
+                  f"additional keys of a mapping-like object are emitted under the wrong condition ([{show(bad) if bad else ''}]): a key must be a str, not a declared field and not already emitted", oam, st_a[0] if st_a else oam.node, detail="str key, undeclared, not yet in result")
+        ctx.check(all(norm(n.targets[0].slice) == "key" for n in st_a), "C04.R4", f"{oam.qualname}:additional-key", st_a[0] if st_a else oam.node.body[0], "an additional key is stored under another name than itself", oam, oam.node, detail="result[key]")
+    except Unknown as err:
+        ctx.undecided("C04.R4", f"{oam.qualname}: {err}")
 
     # ---------------- R5
     ctx.rule("C04.R5", "every child method held by a node / field strategy is applied to the matching part of the object", floor=40)
@@ -226,6 +290,12 @@ def mutants(mb):
     mb.add_text("collection-passthrough-any-nocopy", S, "            (self.no_copy and issubclass(cls, list))\n", "            self.no_copy\n", "C04.R6", "collection:passthrough")
     mb.add_text("collection-set-passthrough", S, "                and not issubclass(cls, collections.abc.Set)\n", "", "C04.R6", "collection:passthrough")
     mb.add_text("discriminate-falls-off", S, "            # TypedDict instances cannot be told apart without their discriminator field\n            raise TypeError(f\"{Union[tuple(types)]} can't be discriminated\")\n", "", "C04.R1", "discriminate:returns")
+    mb.add_text("serialized-field-flags-or", M, "        if not (self.undefined and value is Undefined) and not (\n            self.skip_none and value is None\n        ):", "        if not (self.undefined and value is Undefined) or not (\n            self.skip_none and value is None\n        ):", "C04.R2c", "SerializedField")
+    mb.add_text("complex-presence-typed-dict-and", M, "            (self.required or self.name in obj)\n", "            (self.required and self.name in obj)\n", "C04.R2c", "ComplexField")
+    mb.add_text("complex-exclude-unset-flipped", M, "            else (not self.exclude_unset or self.name in getattr(obj, FIELDS_SET_ATTR))", "            else (self.exclude_unset or self.name in getattr(obj, FIELDS_SET_ATTR))", "C04.R2c", "ComplexField")
+    mb.add_text("identity-field-reads-alias", M, "        result[self.alias] = getattr(obj, self.name)\n", "        result[self.alias] = getattr(obj, self.alias)\n", "C04.R4", "IdentityField")
+    mb.add_text("additional-keys-or", M, "            if isinstance(key, str) and not (key in self.field_names or key in result):", "            if isinstance(key, str) or not (key in self.field_names or key in result):", "C04.R4", "additional")
+    mb.add_text("additional-keys-and", M, "            if isinstance(key, str) and not (key in self.field_names or key in result):", "            if isinstance(key, str) and not (key in self.field_names and key in result):", "C04.R4", "additional")
     mb.add_text("neg-passthrough-reordered", S, "            issubclass(cls, dict) and self.no_copy\n", "            self.no_copy and issubclass(cls, dict)\n", negative=True)
     mb.add_text("neg-flag-reordered", S, "                    is_union_of(field.type, UndefinedType)\n                    or field_default is Undefined,\n", "                    field_default is Undefined\n                    or is_union_of(field.type, UndefinedType),\n", negative=True)
     mb.add_text("neg-property-instead-of-call", S, "                    is_union_of(field.type, UndefinedType)\n                    or field_default is Undefined,\n", "                    field.undefined or field_default is Undefined,\n", negative=True)
